@@ -89,7 +89,7 @@ class Exec:
                 else:
                     return k(SOpaque("fstring"), st2)
             f = z3.Function("fmt:" + lits, *[t.sort() for t in terms], S.Str) if terms else None
-            return k(SPrim("str", f(*terms) if f else S.str_lit(lits)), st2)
+            return k(SPrim("str", f(*terms) if f is not None else S.str_lit(lits)), st2)
         return self.evs(parts, st, done)
 
     def ev_Name(self, e, st, k):
@@ -140,6 +140,8 @@ class Exec:
         return self.ev(e.value, st, got)
 
     def getattr(self, o: SV, name: str, st: St, k):
+        if isinstance(o, SOpaqueObj):
+            return k(SOpaqueObj(f"{o.name}.{name}"), st)
         if isinstance(o, SPrim) and (o.ty, name) in S.OPAQUE_ATTRS:
             ty, f = S.OPAQUE_ATTRS[(o.ty, name)]
             return k(S.wrap(ty, f(o.t)), st)
@@ -240,6 +242,7 @@ class Exec:
 
     def ev_UnaryOp(self, e, st, k):
         def got(v, st2):
+            if isinstance(v, SOpaqueObj) and not isinstance(e.op, ast.Not): return k(SOpaqueObj("unop"), st2)
             if isinstance(e.op, ast.Not): return k(B(z3.Not(ops.truth(st2, v))), st2)
             if isinstance(e.op, ast.USub) and isinstance(v, SPrim) and v.ty == "int": return k(I(-v.t), st2)
             raise Unsupported(ast.unparse(e))
@@ -312,9 +315,14 @@ class Exec:
             return self.eq(b, a, st, k)
         return k(ops.equal(st, a, b), st)
 
+    def ev_Lambda(self, e, st, k):
+        return k(SOpaqueObj("lambda"), st)
+
     def ev_BinOp(self, e, st, k):
         def got(vals, st2):
             a, b = vals
+            if isinstance(a, SOpaqueObj) or isinstance(b, SOpaqueObj):
+                return k(SOpaqueObj("binop"), st2)
             if isinstance(a, SPrim) and isinstance(b, SPrim) and a.ty == b.ty == "int":
                 if isinstance(e.op, ast.Add): return k(I(a.t + b.t), st2)
                 if isinstance(e.op, ast.Sub): return k(I(a.t - b.t), st2)
